@@ -37,6 +37,13 @@ import (
 // are equal / zero / all-ones / weak / semi-weak DES keys, parity, repeating patterns), as the caller's key and as
 // the payload of an EncryptedKey; what an *rsa.PrivateKey holds in Primes / Precomputed (vector field rsaparts),
 // including a three-prime key pair.  Oracle unchanged: never a panic; acceptance is left open for all of them.
+// Round 5: the Algorithm identifier of xenc11:MGF as a string (family ekmgf: attribute missing, empty, without '#',
+// '#' last, a short suffix, unknown, the W3C identifiers x every DigestMethod class); ds:KeyInfo as a sequence of items
+// with ds:RetrievalMethod (family keyinfo: URI classes, order of the items, reference graphs among EncryptedKey
+// elements inside the element and BEHIND it in the enclosing element - vector field sibs).  Cases that hold
+// references (vector field refs) are decrypted in a CHILD PROCESS with a small stack limit (c11_child_test.go): an
+// implementation that follows references without bound ends its process; that is the finding "unbounded
+// recursion", like a panic a violation of "returns either plaintext or an error".
 
 type c11Why struct {
 	Alg     bool `json:"alg"`
@@ -62,10 +69,44 @@ type c11Vec struct {
 	Kparts   []xeKeyPart  `json:"kparts,omitempty"`   // family keyvalue: the octets of the symmetric key "K"
 	Why      []c11Why     `json:"why"`
 	Pred     c10Out       `json:"pred"`
+	// round 5
+	Sibs   []xeEl `json:"sibs,omitempty"` // EncryptedKey elements standing behind the element in the enclosing element
+	Tag    string `json:"tag,omitempty"`  // name of the abstract case inside families ekmgf / keyinfo
+	Refs   bool   `json:"refs,omitempty"` // the case holds references between elements: run it where not returning is survivable
+	Mgfids []struct {
+		C   string     `json:"c"`
+		Row xeMgfIdRow `json:"row"`
+	} `json:"mgfids,omitempty"` // rows of table MgfId the case uses
+	Rmuris []struct {
+		U   string     `json:"u"`
+		Row xeRmUriRow `json:"row"`
+	} `json:"rmuris,omitempty"` // rows of table RmUri the case uses
+}
+
+// c11TablesOK compares the strings the harness writes for the identifier classes of a vector with the rows of the
+// spec's tables MgfId / RmUri.
+func (v *c11Vec) tablesOK() error {
+	for _, m := range v.Mgfids {
+		txt, ok := xeMgfIdText(m.C, "")
+		if got := xeMgfIdRowOf(txt, ok); got != m.Row {
+			return fmt.Errorf("MGF identifier class %q: spec/XmlEnc.tla MgfId says %+v, the harness writes %q = %+v", m.C, m.Row, txt, got)
+		}
+	}
+	for _, u := range v.Rmuris {
+		txt, ok := xeRmURIText(u.U, "k1")
+		got := xeRmUriRowOf(txt, ok, "k1")
+		a, b := append([]string{}, got.Special...), append([]string{}, u.Row.Special...)
+		sort.Strings(a)
+		sort.Strings(b)
+		if got.Attr != u.Row.Attr || got.Frag != u.Row.Frag || got.Idtext != u.Row.Idtext || got.Denotes != u.Row.Denotes || strings.Join(a, ",") != strings.Join(b, ",") {
+			return fmt.Errorf("RetrievalMethod URI class %q: spec/XmlEnc.tla RmUri says %+v, the harness writes %q = %+v", u.U, u.Row, txt, got)
+		}
+	}
+	return nil
 }
 
 type c11Obs struct {
-	K      string `json:"k"` // plaintext | error | panic
+	K      string `json:"k"` // plaintext | error | panic | overflow (the process ended: unbounded recursion) | hang
 	Detail string `json:"detail,omitempty"`
 	N      int    `json:"n,omitempty"`
 }
@@ -136,12 +177,37 @@ func (v *c11Vec) dataKeyLen() string {
 }
 
 func (v *c11Vec) id() string {
-	if v.Lex.isPkg() {
-		b, _ := json.Marshal([]any{v.Fam, v.Via, v.El, v.Key})
-		return hashKey(string(b))
+	parts := []any{v.Fam, v.Via, v.El, v.Key}
+	if !v.Lex.isPkg() {
+		parts = append(parts, v.Lex.norm())
 	}
-	b, _ := json.Marshal([]any{v.Fam, v.Via, v.El, v.Key, v.Lex.norm()})
+	if len(v.Sibs) > 0 || v.Tag != "" {
+		parts = append(parts, v.Sibs, v.Tag)
+	}
+	b, _ := json.Marshal(parts)
 	return hashKey(string(b))
+}
+
+// c11NotReturning names the ways of neither returning plaintext nor an error: a panic, a recursion without bound
+// (the child process was ended by the Go runtime), no return within the watchdog's time.
+func c11NotReturning(k string) (prefix, what string, is bool) {
+	switch k {
+	case "panic":
+		return "C11:panic:", "panicked", true
+	case "overflow":
+		return "C11:unbounded-recursion:", "recursed without bound (the Go runtime ended the process: stack overflow)", true
+	case "hang":
+		return "C11:hang:", "did not return", true
+	}
+	return "", "", false
+}
+
+func c11DmName(d xeDm) string {
+	switch d.K {
+	case "known":
+		return d.Name + "/" + d.Uri
+	}
+	return d.K
 }
 
 // lexSuffix names the lexical form in a key when it is not the package's own.
@@ -153,6 +219,16 @@ func (v *c11Vec) lexSuffix() string {
 }
 
 func (v *c11Vec) panicKeyPkg(prefix string) string {
+	// round 5: the abstract case is named by the spec (tag): the class of the MGF identifier x DigestMethod x key
+	// transport; the URI class / order of items / reference graph x block cipher x key value
+	switch v.Fam {
+	case "ekmgf":
+		p := v.path()
+		e := p[len(p)-1]
+		return fmt.Sprintf("%salg=%s:%s:dm=%s", prefix, e.Em, v.Tag, c11DmName(e.Dm))
+	case "keyinfo":
+		return fmt.Sprintf("%skeyinfo:%s:alg=%s:key=%s", prefix, v.Tag, v.El.Em, v.Key.name())
+	}
 	// a key value of an unusual Go type / shape: the abstract case is that key value x the algorithm
 	// of the level it is handed to (the innermost level Decrypt visits)
 	if v.Key.unusual() {
@@ -232,6 +308,14 @@ type c11Run struct {
 	SPXML   map[string]string
 	WantLen int
 	Match   bool // plaintext equals the symbolic plaintext of the data level
+	want    []byte
+	units   []c11Unit // what is left to run in a child process (cases holding references)
+}
+
+// setDirect records the outcome of xmlenc.Decrypt on the element of the case.
+func (r *c11Run) setDirect(o c11Obs, got []byte) {
+	r.Direct = o
+	r.Match = r.want != nil && o.K == "plaintext" && string(got) == string(r.want)
 }
 
 func c11Decrypt(k any, root *etree.Element) (c11Obs, []byte) {
@@ -258,9 +342,17 @@ var c11SP = func() func() *saml.ServiceProvider {
 // c11Response wraps an EncryptedData element (and optionally sibling EncryptedKeys) in an
 // unsigned Response as anyone on the network can post it to the ACS endpoint.
 func c11Response(ed *etree.Element, sibling bool, l xeLex) []byte {
+	return c11ResponseDoc(ed, nil, sibling, l)
+}
+
+// c11ResponseDoc is c11Response with the elements behind standing behind the EncryptedData in the EncryptedAssertion.
+func c11ResponseDoc(ed *etree.Element, behind []*etree.Element, sibling bool, l xeLex) []byte {
 	ea := etree.NewElement("saml:EncryptedAssertion")
 	ed = ed.Copy()
 	ea.AddChild(ed)
+	for _, b := range behind {
+		ea.AddChild(b.Copy())
+	}
 	if sibling {
 		if ki := ed.FindElement("./KeyInfo"); ki != nil {
 			for _, ek := range ki.FindElements("./EncryptedKey") {
@@ -310,11 +402,22 @@ func c11Execute(v *c11Vec, rng *rand.Rand) *c11Run {
 		ctx.set("K", k)
 	}
 	el := c11Build(ctx, v)
-	root, xmlb, err := xeRender(el, v.Lex)
+	var sibs []*etree.Element
+	for _, s := range v.Sibs {
+		sibs = append(sibs, ctx.build(s, "EncryptedKey"))
+	}
+	root, xmlb, err := xeRenderDoc(el, sibs, v.Lex)
 	if err != nil {
 		panic("harness: built element does not parse: " + err.Error())
 	}
-	if err := xeNamespaceOK(root); err != nil {
+	check := root
+	if len(sibs) > 0 {
+		check = root.Parent()
+		if k := check.ChildElements(); len(k) != 1+len(sibs) || k[0] != root {
+			panic("harness: the element handed to Decrypt is not the first of the enclosing element")
+		}
+	}
+	if err := xeNamespaceOK(check); err != nil {
 		panic("harness: lexical form " + v.Lex.name() + " changes the element tree: " + err.Error())
 	}
 	r.XML = string(xmlb)
@@ -331,21 +434,28 @@ func c11Execute(v *c11Vec, rng *rand.Rand) *c11Run {
 	case string:
 		r.KeyDesc.B64 = base64.StdEncoding.EncodeToString([]byte(x))
 	}
-	r.Direct, got = c11Decrypt(kval, root)
 	switch v.El.Ct.K {
 	case "blk":
-		want := ctx.val(v.El.Ct.Pt.ID, v.El.Ct.Pt.Len)
-		r.WantLen = len(want)
-		r.Match = r.Direct.K == "plaintext" && string(got) == string(want)
+		r.want = ctx.val(v.El.Ct.Pt.ID, v.El.Ct.Pt.Len)
 	case "wrap": // an EncryptedKey on its own: the plaintext is the wrapped key
-		want := ctx.val(v.El.Ct.Payload.ID, v.El.Ct.Payload.Len)
-		r.WantLen = len(want)
-		r.Match = r.Direct.K == "plaintext" && string(got) == string(want)
+		r.want = ctx.val(v.El.Ct.Payload.ID, v.El.Ct.Payload.Len)
+	}
+	r.WantLen = len(r.want)
+	if v.Refs {
+		r.units = append(r.units, c11Unit{Entry: "decrypt", XML: r.XML, Key: r.KeyDesc})
+	} else {
+		var o c11Obs
+		o, got = c11Decrypt(kval, root)
+		r.setDirect(o, got)
 	}
 	// the same element posted to a service provider: the one holding the standard sp key, or, for key
 	// values of other shapes / types that can be a ServiceProvider.Key (crypto.Signer), one holding that value
 	var prov func() *saml.ServiceProvider
-	if v.Via == "rsa" {
+	modes := []string{"nested", "sibling"}
+	if v.Via == "ref" { // the document as the vector describes it: the EncryptedKeys behind the EncryptedData stay there
+		modes = []string{"asis"}
+	}
+	if v.Via == "rsa" || v.Via == "ref" {
 		switch {
 		case v.Key.T == "rsa" && v.Key.ID == "sp" && !v.Key.unusual():
 			prov = c11SP
@@ -356,10 +466,14 @@ func c11Execute(v *c11Vec, rng *rand.Rand) *c11Run {
 		}
 	}
 	if prov != nil {
-		for _, mode := range []string{"nested", "sibling"} {
-			doc := c11Response(el, mode == "sibling", v.Lex)
+		for _, mode := range modes {
+			doc := c11ResponseDoc(el, sibs, mode == "sibling", v.Lex)
 			r.SPXML[mode] = string(doc)
-			r.SP[mode] = c11RunSPWith(prov(), doc)
+			if v.Refs {
+				r.units = append(r.units, c11Unit{Entry: "sp", Mode: mode, XML: string(doc), Key: r.KeyDesc})
+			} else {
+				r.SP[mode] = c11RunSPWith(prov(), doc)
+			}
 		}
 	}
 	return r
@@ -587,7 +701,7 @@ func c11MutationRun(n int, rep *Report) []c11Mut {
 func TestC11(t *testing.T) {
 	rep := NewReport("C11")
 	defer rep.Finish(t)
-	rep.Rule = "every terminal state of spec/XmlEnc.tla family C11 (per algorithm every CipherValue length 0..IV+4 blocks+1(+tag) x final-byte representative {0,1,bs,bs+1,n-1,n,n+1,255} / GCM region modified, direct and RSA-wrapped keys incl. 8-octet 3DES keys; EncryptionMethod / CipherData / DigestMethod / nesting / repetition variants; X509Data classes described by their certificates: none, X509Data without certificate, the key's certificate, other modulus, same modulus with public exponent 3, RSA of another size, EC, not a certificate, line-wrapped / indented base64, two certificates in either order; key values by Go type and shape: []byte of eight sizes incl. nil and empty slice, nil, string, *ecdsa.PrivateKey, ed25519.PrivateKey, *rsa.PublicKey, rsa.PrivateKey value, a crypto.Signer/Decrypter around the key, *rsa.PrivateKey as parsed / without Precomputed / with N,E,D only / with a wrong D / without D / zero value / nil pointer, these crossed with the three RSA key transports x EncryptedKey alone or nested x valid, undecodable, absent, junk cipher value x certificate absent, matching, same-modulus-other-exponent; X509Data as a sequence of items: the hints X509IssuerSerial / X509SubjectName / X509SKI alone and in front of / behind / in another X509Data element than the certificate of the key, of another key, with another exponent, an EC certificate; family F6: 189 cases of every verdict class written in every enumerated lexical form (round 4: plus EncryptedKeys with KeySize and an empty OAEPparams) - namespaces bound to the package's prefixes / other prefixes / the default namespace, declarations on the element / on every element / on the element handed to Decrypt / on an enclosing element, attributes in either order, white space and comments between child elements; round 4: the optional children of EncryptionMethod written or left out (family ekopt: DigestMethod absent / SHA-1 / SHA-256 x xenc11:MGF absent / mgf1sha1 / mgf1sha256 x OAEPparams absent / empty / a label x KeySize x certificate, the key wrapped with what the element says), the value of the symmetric key (family keyvalue: for 3DES K1=K2, K2=K3, K1=K3, K1=K2=K3, all-zero, all-ones, one repeated octet, weak / semi-weak DES keys, a semi-weak pair, odd / even parity; for AES all-zero, all-ones, one repeated octet, 8- and 16-octet periods; as the caller's key and as the payload of an EncryptedKey), *rsa.PrivateKey values by what Primes / Precomputed hold (Primes nil, empty, pre-sized with nil entries, last entry nil, wrong numbers; Primes wiped as a slice or entry by entry with Precomputed kept; Precomputed.CRTValues with nil entries; a three-prime key pair whole and in these shapes) crossed like the shapes of round 2) is concretised with random contents and given to xmlenc.Decrypt, RSA-wrapped ones also to ServiceProvider.ParseXMLResponse inside an unsigned Response (EncryptedKey nested and as sibling; the service provider holds the sp key or, for key values that are a crypto.Signer, that key value); plus structure-aware mutations of xmlenc/corpus, crashers and testdata; oracle: no panic, MustReject => error; non-trivial = MustReject cases and baseline cases that decrypt"
+	rep.Rule = "every terminal state of spec/XmlEnc.tla family C11 (per algorithm every CipherValue length 0..IV+4 blocks+1(+tag) x final-byte representative {0,1,bs,bs+1,n-1,n,n+1,255} / GCM region modified, direct and RSA-wrapped keys incl. 8-octet 3DES keys; EncryptionMethod / CipherData / DigestMethod / nesting / repetition variants; X509Data classes described by their certificates: none, X509Data without certificate, the key's certificate, other modulus, same modulus with public exponent 3, RSA of another size, EC, not a certificate, line-wrapped / indented base64, two certificates in either order; key values by Go type and shape: []byte of eight sizes incl. nil and empty slice, nil, string, *ecdsa.PrivateKey, ed25519.PrivateKey, *rsa.PublicKey, rsa.PrivateKey value, a crypto.Signer/Decrypter around the key, *rsa.PrivateKey as parsed / without Precomputed / with N,E,D only / with a wrong D / without D / zero value / nil pointer, these crossed with the three RSA key transports x EncryptedKey alone or nested x valid, undecodable, absent, junk cipher value x certificate absent, matching, same-modulus-other-exponent; X509Data as a sequence of items: the hints X509IssuerSerial / X509SubjectName / X509SKI alone and in front of / behind / in another X509Data element than the certificate of the key, of another key, with another exponent, an EC certificate; family F6: 189 cases of every verdict class written in every enumerated lexical form (round 4: plus EncryptedKeys with KeySize and an empty OAEPparams) - namespaces bound to the package's prefixes / other prefixes / the default namespace, declarations on the element / on every element / on the element handed to Decrypt / on an enclosing element, attributes in either order, white space and comments between child elements; round 4: the optional children of EncryptionMethod written or left out (family ekopt: DigestMethod absent / SHA-1 / SHA-256 x xenc11:MGF absent / mgf1sha1 / mgf1sha256 x OAEPparams absent / empty / a label x KeySize x certificate, the key wrapped with what the element says), the value of the symmetric key (family keyvalue: for 3DES K1=K2, K2=K3, K1=K3, K1=K2=K3, all-zero, all-ones, one repeated octet, weak / semi-weak DES keys, a semi-weak pair, odd / even parity; for AES all-zero, all-ones, one repeated octet, 8- and 16-octet periods; as the caller's key and as the payload of an EncryptedKey), *rsa.PrivateKey values by what Primes / Precomputed hold (Primes nil, empty, pre-sized with nil entries, last entry nil, wrong numbers; Primes wiped as a slice or entry by entry with Precomputed kept; Precomputed.CRTValues with nil entries; a three-prime key pair whole and in these shapes) crossed like the shapes of round 2; round 5: the Algorithm identifier of xenc11:MGF as a string (family ekmgf: attribute missing, empty, without '#' short / long, '#' last, a suffix of fewer than four characters, well-formed unknown, the W3C identifiers - x every DigestMethod class under xmlenc11 rsa-oaep, EncryptedKey alone and nested; a sample under rsa-oaep-mgf1p / rsa-1_5), ds:KeyInfo as a sequence of items (family keyinfo: ds:RetrievalMethod with the URI classes #id / dangling / empty / no attribute / '#' / bare name / with apostrophe / with quotation mark / with brackets / xpointer form / external, the element meant standing behind the EncryptedData or nowhere, x key value *rsa.PrivateKey / []byte / nil; RetrievalMethod in front of / behind an inline EncryptedKey, a KeyName, X509Data, another RetrievalMethod; reference graphs among EncryptedKey elements: self reference at a sibling / an inline / an Id-less-named element, 2-cycles over siblings / inline + sibling / nested, chains ending at an RSA EncryptedKey or nowhere, a repeated Id, a self reference inside an RSA EncryptedKey); cases with references run in child processes of the test binary under a 32 MiB stack limit - a child ended by the Go runtime is the outcome 'unbounded recursion', counted like a panic) is concretised with random contents and given to xmlenc.Decrypt, RSA-wrapped ones also to ServiceProvider.ParseXMLResponse inside an unsigned Response (EncryptedKey nested and as sibling; the service provider holds the sp key or, for key values that are a crypto.Signer, that key value); plus structure-aware mutations of xmlenc/corpus, crashers and testdata; oracle: no panic, MustReject => error; non-trivial = MustReject cases and baseline cases that decrypt"
 	lines := loadLines(t, "vectors.ndjson")
 	if len(lines) == 0 {
 		rep.Break("no vectors")
@@ -611,6 +725,10 @@ func TestC11(t *testing.T) {
 				rep.Break("key shape %q: spec/XmlEnc.tla RsaParts says %+v, the harness builds %+v", v.Key.Shape, v.RsaParts, want)
 				return
 			}
+		}
+		if err := v.tablesOK(); err != nil {
+			rep.Break("%v", err)
+			return
 		}
 		if first, ok := byCase[v.id()]; ok {
 			if first.Class != v.Class {
@@ -650,6 +768,9 @@ func TestC11(t *testing.T) {
 		if !v.Lex.isPkg() && n > 2 { // the lexical forms multiply the cases, not the contents
 			n = 2
 		}
+		if v.Refs && n > 3 { // references: the graph is the case, the contents matter little (and run in child processes)
+			n = 3
+		}
 		for r := 0; r < n; r++ {
 			jobs = append(jobs, job{v, r})
 		}
@@ -658,6 +779,28 @@ func TestC11(t *testing.T) {
 	parallel(len(jobs), func(i int) {
 		runs[i] = c11Execute(jobs[i].v, newRand(fmt.Sprintf("c11/%s/%d", jobs[i].v.id(), jobs[i].r)))
 	})
+	// the cases that hold references between elements: xmlenc.Decrypt and the service provider run in child processes
+	var units []c11Unit
+	for i, r := range runs {
+		for _, u := range r.units {
+			u.Job = i
+			units = append(units, u)
+		}
+	}
+	outs, ended, err := c11RunUnits(units)
+	if err != nil {
+		rep.Break("child process for the cases with references: %v", err)
+		return
+	}
+	for k, u := range units {
+		r := runs[u.Job]
+		if u.Entry == "decrypt" {
+			r.setDirect(outs[k].Obs, outs[k].Got)
+		} else {
+			r.SP[u.Mode] = outs[k].Obs
+		}
+	}
+	rep.Extra["cases_with_references_run_in_child_processes"] = map[string]int{"executions": len(units), "child_processes_ended_by_the_runtime": ended}
 
 	// a case written in another lexical form is filed under a key of its own (the key of the case plus the
 	// form) only when the form makes the difference: when the same case fails in the package's form too, the
@@ -665,15 +808,17 @@ func TestC11(t *testing.T) {
 	pkgFails := map[string]bool{}
 	for i, j := range jobs {
 		if v, r := j.v, runs[i]; v.Lex.isPkg() {
-			if r.Direct.K == "panic" {
-				pkgFails[v.panicKeyPkg("C11:panic:")] = true
+			if pre, _, bad := c11NotReturning(r.Direct.K); bad {
+				pkgFails[v.panicKeyPkg(pre)] = true
 			} else if v.Class == "MustReject" && r.Direct.K != "error" {
 				k, _ := v.rejectKey()
 				pkgFails["C11:accepted:"+k] = true
 			}
-			for _, mode := range []string{"nested", "sibling"} {
-				if o, ok := r.SP[mode]; ok && o.K == "panic" && r.Direct.K != "plaintext" {
-					pkgFails[v.panicKeyPkg("C11:panic:sp:")] = true
+			for _, mode := range c11SPModes {
+				if o, ok := r.SP[mode]; ok && r.Direct.K != "plaintext" {
+					if pre, _, bad := c11NotReturning(o.K); bad {
+						pkgFails[v.panicKeyPkg(pre+"sp:")] = true
+					}
 				}
 			}
 		}
@@ -695,12 +840,12 @@ func TestC11(t *testing.T) {
 		rep.Eval(cls, id)
 		rep.Trace(1)
 		replay := func(obs c11Obs, xmls, entry string) map[string]any {
-			return map[string]any{"entry": entry, "vector": v, "xml": xmls, "key_value": r.KeyDesc, "observed": obs}
+			return map[string]any{"entry": entry, "vector": v, "xml": xmls, "key_value": r.KeyDesc, "observed": obs, "isolate": v.Refs}
 		}
 		// 1. totality
-		if r.Direct.K == "panic" {
-			rep.Violation(lexKey(v, v.panicKeyPkg("C11:panic:")), fmt.Sprintf("xmlenc.Decrypt panicked (%s; element %s, CipherValue of %d octets, key %s, lexical form %s): %s",
-				v.Fam, v.El.Em, v.El.Len, v.Key.name(), v.Lex.name(), r.Direct.Detail), replay(r.Direct, r.XML, "decrypt"))
+		if pre, what, bad := c11NotReturning(r.Direct.K); bad {
+			rep.Violation(lexKey(v, v.panicKeyPkg(pre)), fmt.Sprintf("xmlenc.Decrypt %s (%s %s; element %s, CipherValue of %d octets, key %s, lexical form %s): %s",
+				what, v.Fam, v.Tag, v.El.Em, v.El.Len, v.Key.name(), v.Lex.name(), r.Direct.Detail), replay(r.Direct, r.XML, "decrypt"))
 		} else if cls == "MustReject" && r.Direct.K != "error" {
 			// 2. rejection
 			k, what := v.rejectKey()
@@ -711,7 +856,7 @@ func TestC11(t *testing.T) {
 			for _, m := range v.models() {
 				p := m.Pred
 				said += fmt.Sprintf(" %s:%s(%s)", m.Model, p.K, p.Why)
-				if p.K == r.Direct.K || (p.Nondet && r.Direct.K != "panic") {
+				if p.K == r.Direct.K || (p.Nondet && (r.Direct.K == "plaintext" || r.Direct.K == "error")) {
 					match = true
 					modelHit[m.Model]++
 					break
@@ -728,7 +873,7 @@ func TestC11(t *testing.T) {
 			}
 		}
 		// 3. the same element delivered to the service provider
-		for _, mode := range []string{"nested", "sibling"} {
+		for _, mode := range c11SPModes {
 			o, ok := r.SP[mode]
 			if !ok {
 				continue
@@ -736,7 +881,10 @@ func TestC11(t *testing.T) {
 			spRuns++
 			rep.Eval(cls, id+"/sp-"+mode)
 			rep.Trace(1)
-			if o.K == "panic" && r.Direct.K == "plaintext" {
+			if pre, what, bad := c11NotReturning(o.K); bad && o.K != "panic" {
+				rep.Violation(lexKey(v, v.panicKeyPkg(pre+"sp:")), fmt.Sprintf("ServiceProvider.ParseXMLResponse %s on an unsigned Response with an attacker-built EncryptedAssertion (%s %s, EncryptedKey %s; data %s; ServiceProvider.Key %s): %s",
+					what, v.Fam, v.Tag, mode, v.El.Em, v.Key.name(), o.Detail), replay(o, r.SPXML[mode], "sp"))
+			} else if o.K == "panic" && r.Direct.K == "plaintext" {
 				// xmlenc.Decrypt returned; the service provider then mishandled the decrypted octets
 				rep.Violation("C11:panic:sp:plaintext-without-root-element", fmt.Sprintf("ServiceProvider.ParseXMLResponse panicked after decrypting an attacker-built EncryptedAssertion whose plaintext (%d octets) is not an XML element (unsigned Response; %s, CipherValue of %d octets): %s",
 					r.Direct.N, v.El.Em, v.El.Len, o.Detail), replay(o, r.SPXML[mode], "sp"))
@@ -788,10 +936,48 @@ func TestC11(t *testing.T) {
 	if rep.Classes["MustReject"] == 0 {
 		rep.Break("vacuous: no MustReject cases")
 	}
+	// round 5: the registered run has the named deviations MgfErrorSlicesIdentifier / RetrievalMethod = "xpath" off; the
+	// phase before this one runs TLC with both on in the required design (spec/XmlEnc_C11dev.cfg, -continue) and must
+	// have produced a counterexample to every cause of Total
+	refuted := map[string]bool{}
+	cex, _ := filepath.Glob(filepath.Join(workDir(), "tlc_violation_*.txt"))
+	for _, f := range cex {
+		b, _ := os.ReadFile(f)
+		for _, inv := range c11DevInvariants {
+			if strings.Contains(string(b), "Invariant "+inv+" is violated") {
+				refuted[inv] = true
+			}
+		}
+	}
+	for _, inv := range c11DevInvariants {
+		if !refuted[inv] {
+			rep.Break("TLC did not refute %s under the deviations of XmlEnc_C11dev.cfg (no counterexample in the work directory): the identifier-class / reference-graph dimension of the model is vacuous", inv)
+		}
+	}
+	if len(refuted) == len(c11DevInvariants) {
+		rep.Note("model self-test: with MgfErrorSlicesIdentifier and RetrievalMethod = xpath on (XmlEnc_C11dev.cfg) TLC refutes NoIdentifierSlice, NoPathPanic and NoUnboundedRecursion (Total, cause by cause)")
+	}
+	// vacuity of the new dimensions, counted by what the vectors REQUIRE to be built (never by what was observed)
+	famCases := map[string]int{}
+	for _, v := range vecs {
+		famCases[v.Fam]++
+	}
+	for _, f := range []string{"ekmgf", "keyinfo"} {
+		if famCases[f] == 0 {
+			rep.Break("vacuous: no %s vectors", f)
+		}
+	}
 	if okTotal == 0 {
 		rep.Break("vacuous: not one well-formed baseline ciphertext was decrypted by the real code")
 	}
 }
+
+// the causes of Total that XmlEnc_C11dev.cfg must refute
+var c11DevInvariants = []string{"NoIdentifierSlice", "NoPathPanic", "NoUnboundedRecursion"}
+
+// the ways an element is delivered to a service provider: EncryptedKey inside KeyInfo, moved behind the EncryptedData,
+// the document as the vector describes it (families with references)
+var c11SPModes = []string{"nested", "sibling", "asis"}
 
 func c11NamedKey(name string) any {
 	switch {
@@ -825,20 +1011,35 @@ func init() {
 			XML     string     `json:"xml"`
 			KeyName string     `json:"key_name"`
 			KeyVal  c11KeyDesc `json:"key_value"`
+			Isolate bool       `json:"isolate"`
 		}
 		if err := json.Unmarshal(raw, &r); err != nil {
 			t.Fatal(err)
 		}
+		if r.Isolate && (r.Entry == "sp" || r.Entry == "decrypt") {
+			// a case with references: in a child process, as TestC11 runs it
+			x := r.XML
+			if r.Entry == "sp" {
+				x = c11FreshInstant(t, r.XML)
+			}
+			outs, _, err := c11RunUnits([]c11Unit{{Entry: r.Entry, XML: x, Key: r.KeyVal}})
+			if err != nil {
+				t.Fatal(err)
+			}
+			o := outs[0].Obs
+			_, _, bad := c11NotReturning(o.K)
+			if r.Entry == "decrypt" && r.Vector.Class == "MustReject" && o.K != "error" {
+				bad = true
+			}
+			if r.Entry == "sp" && o.K != "error" {
+				bad = true
+			}
+			return bad, o.K + " " + o.Detail
+		}
 		switch r.Entry {
 		case "sp":
 			// the stored Response is unsigned: refresh its IssueInstant so that it is still inside MaxIssueDelay
-			doc := etree.NewDocument()
-			if err := doc.ReadFromString(r.XML); err != nil {
-				t.Fatal(err)
-			}
-			doc.Root().RemoveAttr("IssueInstant")
-			doc.Root().CreateAttr("IssueInstant", time.Now().UTC().Format("2006-01-02T15:04:05Z"))
-			b, _ := doc.WriteToBytes()
+			b := []byte(c11FreshInstant(t, r.XML))
 			prov := c11SP()
 			if kv := (c11KeyVal{T: r.KeyVal.T, ID: r.KeyVal.ID, Shape: r.KeyVal.Shape}); kv.unusual() || kv.T != "rsa" {
 				if p := c11SPWithKey(r.KeyVal.value()); p != nil {
@@ -866,6 +1067,18 @@ func init() {
 		t.Fatal("unknown entry " + r.Entry)
 		return false, ""
 	})
+}
+
+// c11FreshInstant gives a stored Response the present time as IssueInstant.
+func c11FreshInstant(t *testing.T, xmls string) string {
+	doc := etree.NewDocument()
+	if err := doc.ReadFromString(xmls); err != nil {
+		t.Fatal(err)
+	}
+	doc.Root().RemoveAttr("IssueInstant")
+	doc.Root().CreateAttr("IssueInstant", time.Now().UTC().Format("2006-01-02T15:04:05Z"))
+	b, _ := doc.WriteToBytes()
+	return string(b)
 }
 
 // models lists the predictions for this case, the pinned-tree model first.
